@@ -236,7 +236,10 @@ func genSteps(c config) *rapid.Generator[[]step] {
 		next := 1
 		exp, gc := effExp(c.ExpireSec), effGC(c.GCSec)
 		for k := 0; k < n; k++ {
-			switch rapid.IntRange(0, 11).Draw(t, "op") {
+			switch rapid.IntRange(0, 12).Draw(t, "op") {
+			case 12:
+				// the gateway's metrics collection reads the quota gauges
+				out = append(out, step{Op: "metrics"})
 			case 0, 1, 2, 3:
 				out = append(out, step{Op: "req", Txn: next})
 				next++
@@ -402,6 +405,8 @@ func runHistoryInner(h hist) (nontrivial bool, classes map[string]int, err error
 	clk := vclock.New(start)
 	lastClk, lastNQ = clk, 1
 	engine.SetClock(clk)
+	metrics := engine.NewMetrics()
+	defer metrics.Close()
 	dir, e := engine.NewDir(scratch)
 	if e != nil {
 		return false, classes, infraErr{e.Error()}
@@ -550,6 +555,11 @@ func runHistoryInner(h hist) (nontrivial bool, classes map[string]int, err error
 
 	for si, st := range h.Steps {
 		switch st.Op {
+		case "metrics":
+			classes["metrics-read"]++
+			if e := metrics.Read(); e != nil {
+				return false, classes, infraErr{"metrics collection failed: " + e.Error()}
+			}
 		case "req":
 			if e := doRequest(si, st.Txn, false); e != nil {
 				return false, classes, e
